@@ -1007,3 +1007,15 @@ fn rc_register_despawn_by_entity()
     kani::cover!(onto_b, "second entity"); kani::cover!(!onto_b, "first entity");
     std::mem::forget(cache);
 }
+pub fn put_resource<R: 'static>(cache: &mut ReactCache, a: ReactorHandle)
+{
+    let mut v: Vec<ReactorHandle> = Vec::with_capacity(4);
+    v.push(a);
+    put2(&mut cache.resource_reactors, Some((TypeId::of::<R>(), v)), None);
+}
+pub fn put_any_entity_event<E: 'static>(cache: &mut ReactCache, a: ReactorHandle)
+{
+    let mut v: Vec<ReactorHandle> = Vec::with_capacity(4);
+    v.push(a);
+    put2(&mut cache.any_entity_event_reactors, Some((TypeId::of::<E>(), v)), None);
+}
